@@ -38,7 +38,85 @@ func fillZ1(p *Z1, k int) {
 const z1Src = "type Z1Meta struct { ID string `hseq:\"meta_id\"`; Rev int32 `hseq:\"rev,omitempty\"` }\n" +
 	"type Z1 struct { Z1Meta; ID string; Rev int32 `hseq:\"Ver\"`; Ver int32; Buf []byte; Tags Z1Tags `hseq:\"labels\"` }"
 
+// ---- N5: value embedding five levels deep, fields before and after the embedded struct at every level -------------
+type N5e struct {
+	P int16
+	Q string
+}
+type N5d struct {
+	D1 int8
+	N5e
+	D2 int32
+}
+type N5c struct {
+	C1 bool
+	N5d
+	C2 int64
+}
+type N5b struct {
+	B1 string
+	N5c
+}
+type N5a struct {
+	A1 int8
+	N5b
+	A2 int16
+}
+type N5 struct {
+	R1 int32
+	N5a
+	R2 bool
+}
+
+func fillN5(p *N5, k int) {
+	p.R1, p.A1, p.B1, p.C1, p.D1, p.P, p.Q = int32(k+1), int8(k+2), []string{"b0", "", "b2"}[k%3], k%2 == 0, int8(k+3), int16(k+4), []string{"", "q1", "q2"}[k%3]
+	p.D2, p.C2, p.A2, p.R2 = int32(k+5)<<16, int64(k+6)<<40, int16(k+7), k%2 == 1
+}
+
+const n5Src = "type N5e struct{ P int16; Q string }; type N5d struct{ D1 int8; N5e; D2 int32 }; type N5c struct{ C1 bool; N5d; C2 int64 }\n" +
+	"type N5b struct{ B1 string; N5c }; type N5a struct{ A1 int8; N5b; A2 int16 }; type N5 struct{ R1 int32; N5a; R2 bool }"
+
 func init() {
+	Register(Shape{Name: "N5", Family: "embedding-depth-5", Source: n5Src, Run: func(c *Ctx) {
+		strs := []string{"", "x", "a longer one"}
+		i16, i32, i64 := []int16{0, 1, -5}, []int32{0, 1, -5}, []int64{0, 1, -5 << 40}
+		if c.Is("C01") {
+			Derive(c, "lenses on N5", func() {
+				Lens(c, `ForProduct1[N5, int16]("P")`, optics.ForProduct1[N5, int16]("P"), func(p *N5) *int16 { return &p.P }, i16, fillN5)
+				Lens(c, `ForProduct1[N5, string]("Q")`, optics.ForProduct1[N5, string]("Q"), func(p *N5) *string { return &p.Q }, strs, fillN5)
+				Lens(c, `ForProduct1[N5, int32]("D2")`, optics.ForProduct1[N5, int32]("D2"), func(p *N5) *int32 { return &p.D2 }, i32, fillN5)
+				Lens(c, `ForProduct1[N5, int64]()`, optics.ForProduct1[N5, int64](), func(p *N5) *int64 { return &p.C2 }, i64, fillN5)
+				Lens(c, `ForProduct1[N5, int16]("A2")`, optics.ForProduct1[N5, int16]("A2"), func(p *N5) *int16 { return &p.A2 }, i16, fillN5)
+				Lens(c, `ForProduct1[N5, N5e]()`, optics.ForProduct1[N5, N5e](), func(p *N5) *N5e { return &p.N5e }, []N5e{{}, {1, "a"}, {-1, ""}}, fillN5)
+				Reflector(c, `ForSpectrum1[N5, string]("Q")`, optics.ForSpectrum1[N5, string]("Q"), func(p *N5) *string { return &p.Q }, strs, fillN5)
+				a, b, d := optics.ForProduct3[N5, string, int64, bool]("Q", "C2", "R2")
+				Lens(c, `lens #0 of ForProduct3[N5, string, int64, bool]("Q", "C2", "R2")`, a, func(p *N5) *string { return &p.Q }, strs, fillN5)
+				Lens(c, `lens #1 of ForProduct3[N5, string, int64, bool]("Q", "C2", "R2")`, b, func(p *N5) *int64 { return &p.C2 }, i64, fillN5)
+				Lens(c, `lens #2 of ForProduct3[N5, string, int64, bool]("Q", "C2", "R2")`, d, func(p *N5) *bool { return &p.R2 }, []bool{false, true, false}, fillN5)
+			})
+		}
+		if c.Is("C03") {
+			t := reflect.TypeOf
+			Listing(c, []E[N5]{
+				{Name: "R1", Key: "R1", Type: t(int32(0)), Addr: func(p *N5) unsafe.Pointer { return unsafe.Pointer(&p.R1) }},
+				{Name: "N5a", Key: "N5a", Type: t(N5a{}), Anonymous: true, Addr: func(p *N5) unsafe.Pointer { return unsafe.Pointer(&p.N5a) }},
+				{Name: "A1", Key: "A1", Type: t(int8(0)), Addr: func(p *N5) unsafe.Pointer { return unsafe.Pointer(&p.A1) }},
+				{Name: "N5b", Key: "N5b", Type: t(N5b{}), Anonymous: true, Addr: func(p *N5) unsafe.Pointer { return unsafe.Pointer(&p.N5b) }},
+				{Name: "B1", Key: "B1", Type: t(""), Addr: func(p *N5) unsafe.Pointer { return unsafe.Pointer(&p.B1) }},
+				{Name: "N5c", Key: "N5c", Type: t(N5c{}), Anonymous: true, Addr: func(p *N5) unsafe.Pointer { return unsafe.Pointer(&p.N5c) }},
+				{Name: "C1", Key: "C1", Type: t(false), Addr: func(p *N5) unsafe.Pointer { return unsafe.Pointer(&p.C1) }},
+				{Name: "N5d", Key: "N5d", Type: t(N5d{}), Anonymous: true, Addr: func(p *N5) unsafe.Pointer { return unsafe.Pointer(&p.N5d) }},
+				{Name: "D1", Key: "D1", Type: t(int8(0)), Addr: func(p *N5) unsafe.Pointer { return unsafe.Pointer(&p.D1) }},
+				{Name: "N5e", Key: "N5e", Type: t(N5e{}), Anonymous: true, Addr: func(p *N5) unsafe.Pointer { return unsafe.Pointer(&p.N5e) }},
+				{Name: "P", Key: "P", Type: t(int16(0)), Addr: func(p *N5) unsafe.Pointer { return unsafe.Pointer(&p.P) }},
+				{Name: "Q", Key: "Q", Type: t(""), Addr: func(p *N5) unsafe.Pointer { return unsafe.Pointer(&p.Q) }},
+				{Name: "D2", Key: "D2", Type: t(int32(0)), Addr: func(p *N5) unsafe.Pointer { return unsafe.Pointer(&p.D2) }},
+				{Name: "C2", Key: "C2", Type: t(int64(0)), Addr: func(p *N5) unsafe.Pointer { return unsafe.Pointer(&p.C2) }},
+				{Name: "A2", Key: "A2", Type: t(int16(0)), Addr: func(p *N5) unsafe.Pointer { return unsafe.Pointer(&p.A2) }},
+				{Name: "R2", Key: "R2", Type: t(false), Addr: func(p *N5) unsafe.Pointer { return unsafe.Pointer(&p.R2) }},
+			})
+		}
+	}})
 	strs := []string{"", "x", "a longer one"}
 	i32 := []int32{0, 1, -5}
 	// slices with and without spare capacity, empty-but-not-nil included: the value of a slice field is its header
